@@ -1108,12 +1108,8 @@ func isLenMinusOne(v ssa.Value, s *ssa.Parameter) bool {
 
 // bindingRecord: name, path and value of a binding record (the struct WithLocalVariable appends), by the fields' types.
 func bindingRecord(prog *Program, el *Sym) (name, path, val *Sym) {
-	lt := prog.Bexpr.Types.Scope().Lookup("localVariable")
-	if lt == nil {
-		return nil, nil, nil
-	}
-	st, ok := lt.Type().Underlying().(*types.Struct)
-	if !ok {
+	st := bindingRecordType(prog)
+	if st == nil {
 		return nil, nil, nil
 	}
 	for i := 0; i < st.NumFields(); i++ {
